@@ -846,8 +846,14 @@ func TestLbvcScenarioCodec(t *testing.T) {
 		{MagicByte: 1, Key: []byte("k4"), Value: []byte("v4"), Headers: map[string][]byte{big: []byte("x")}, Timestamp: 10, LeaderEpoch: 3},
 		{MagicByte: 1, Key: []byte("k5"), Value: []byte("v5"), Headers: map[string][]byte{big[:32767]: []byte("y")}, Timestamp: 11, LeaderEpoch: 4},
 	}
+	// more headers than the 16-bit count field of the stored form can hold
+	many := map[string][]byte{}
+	for i := 0; i < 70000; i++ {
+		many[fmt.Sprintf("h%d", i)] = []byte("x")
+	}
+	msgs = append(msgs, &Message{MagicByte: 1, Key: []byte("k6"), Value: []byte("v6"), Headers: many, Timestamp: 12, LeaderEpoch: 4})
 	eq := func(a, b []byte) bool { return string(a) == string(b) && (a == nil) == (b == nil) }
-	l, cleanup := lbvcLog(t, Options{MaxSegmentBytes: 1 << 20})
+	l, cleanup := lbvcLog(t, Options{MaxSegmentBytes: 1 << 22})
 	defer cleanup()
 	stored := map[int64]*Message{}
 	for i, m := range msgs {
@@ -898,6 +904,9 @@ func TestLbvcScenarioCodec(t *testing.T) {
 				problems = append(problems, fmt.Sprintf("offset %d: %d headers read, %d stored", off, len(hs), len(want.Headers)))
 			}
 			for k, v := range want.Headers {
+				if len(problems) > 12 {
+					break
+				}
 				if got, ok := hs[k]; !ok || string(got) != string(v) {
 					problems = append(problems, fmt.Sprintf("offset %d: header %q reads %q (present %v), stored %q", off, lbvcShort(k), got, ok, v))
 				}
